@@ -23,6 +23,121 @@ func runC06(c *Check, tier string) {
 	ruleR06e(c)
 	ruleR06f(c)
 	ruleLoadPathErrors(c, "R06g")
+	ruleR06h(c)
+	ruleR06i(c)
+	// a restore that swallows its download errors reports success with files missing
+	shareRule(c, "R06j", "an error channel whose sends never block (select/default) has room for at least one error (same obligation as R04d)", 1, "R04d", func(sub *Check) { ruleR04d(sub) }, func(k string) bool { return strings.Contains(k, "output/handlers") })
+}
+
+// R06h: the tree that is stored for a directory output has one node per directory entry.
+func ruleR06h(c *Check) {
+	c.Rule("R06h", "in the function that turns os.ReadDir entries into a gen.Directory every iteration of the (full-range) loop over the entries appends a file, directory or symlink node, or leaves the function with an error", 1)
+	n := 0
+	for _, fn := range c.P.Funcs {
+		if !engine.InPackage(fn, "output/handlers") {
+			continue
+		}
+		for _, lp := range engine.LoopsOf(fn) {
+			rv := lp.RangedValue()
+			if rv == nil {
+				continue
+			}
+			fromReadDir := false
+			for _, o := range engine.Origins(rv) {
+				if call, _ := engine.CallOf(o); call != nil && engine.CalleeName(call) == "os.ReadDir" {
+					fromReadDir = true
+				}
+			}
+			if !fromReadDir {
+				continue
+			}
+			var nodeAppends []ssa.Instruction
+			for b := range lp.Body {
+				for _, in := range b.Instrs {
+					call, ok := in.(*ssa.Call)
+					if !ok {
+						continue
+					}
+					if bi, ok := call.Call.Value.(*ssa.Builtin); ok && bi.Name() == "append" {
+						t := call.Type().String()
+						if strings.Contains(t, "gen.FileNode") || strings.Contains(t, "gen.DirectoryNode") || strings.Contains(t, "gen.SymlinkNode") {
+							nodeAppends = append(nodeAppends, call)
+						}
+					}
+				}
+			}
+			if len(nodeAppends) == 0 {
+				continue
+			}
+			n++
+			key := "every-entry-recorded/" + c.P.FuncName(fn)
+			if !lp.IsFullRange() {
+				c.Bad("R06h", key, "the directory entries are not visited in a full range", c.P.InstrPos(nodeAppends[0]))
+				continue
+			}
+			isNode := func(in ssa.Instruction) bool {
+				for _, a := range nodeAppends {
+					if a == in {
+						return true
+					}
+				}
+				return false
+			}
+			skip := lp.IterationCanSkip(isNode, nil)
+			c.Require(!skip, "R06h", key, "every entry adds a node to the tree", "an iteration over the directory entries can go on to the next entry without recording this one in the tree (a `continue`, e.g. for a sub-directory whose digest was seen before): the entry is missing from the cached tree and silently absent after a restore", c.P.InstrPos(nodeAppends[0]))
+		}
+	}
+	if n == 0 {
+		c.Unknown("R06h", "every-entry-recorded", "no loop over os.ReadDir entries that builds tree nodes found", "-")
+	}
+}
+
+// R06i: what is stored is what the user gets: the executable bit of a bin output is set before the
+// outputs are handed to the cache.
+func ruleR06i(c *Check) {
+	c.Rule("R06i", "in the executing method (and the completion it calls) the bin output is made executable before any output-producing registry call, on every path", 1)
+	ex := findExec(c, "R06i")
+	if ex == nil {
+		return
+	}
+	// the chmod helper: a function of internal/execution that chmods a path derived from Target.BinOutput
+	var chmodFn *ssa.Function
+	for _, s := range c.G.CallsTo("os.Chmod") {
+		if engine.InPackage(s.Parent(), "execution") && readsFieldDeep(c, s.Parent(), fk("model.Target", "BinOutput")) {
+			chmodFn = engine.TopFunc(s.Parent())
+		}
+	}
+	if chmodFn == nil {
+		c.Unknown("R06i", "anchor/bin-output-chmod", "anchor-unresolved: no function in internal/execution chmods the bin output", "-")
+		return
+	}
+	reg := c.P.Type("output", "Registry")
+	isProducer := func(in ssa.Instruction) bool {
+		s, ok := in.(ssa.CallInstruction)
+		if !ok {
+			return false
+		}
+		sig := s.Common().Signature()
+		return sig.Results().Len() == 2 && engine.TypeKey(sig.Results().At(0).Type()) == "proto/gen.TargetResult" && sig.Recv() != nil && reg != nil && engine.TypeKey(sig.Recv().Type()) == "output.Registry"
+	}
+	isChmod := func(in ssa.Instruction) bool {
+		s, ok := in.(ssa.CallInstruction)
+		if !ok {
+			return false
+		}
+		for _, f := range c.G.CalleesOf(s) {
+			if f == chmodFn {
+				return true
+			}
+		}
+		return false
+	}
+	reach, at := engine.PathExists(ex.ExecMethod, nil, isProducer, engine.PathQuery{DeepTo: true, CutInstr: isChmod})
+	pos := c.P.Pos(ex.ExecMethod.Pos())
+	if at != nil {
+		pos = c.P.InstrPos(at)
+	}
+	c.Require(!reach, "R06i", "chmod-before-outputs-stored/"+c.P.FuncName(ex.ExecMethod), "every path to an output-producing call passes "+c.P.FuncName(chmodFn), "the outputs can be stored before the bin output was made executable: the cache records the file as non-executable and a restore into a fresh workspace yields a tool that cannot be run", pos)
 }
 
 func handlerFuncs(c *Check, method string) (impls []*ssa.Function, reach map[*ssa.Function]bool) {
